@@ -807,6 +807,27 @@ def like_registers(rep, rule, idx, c, allowed=()):
     return n
 
 
+def map_parameters(rep, rule, idx, class_spec, expect):
+    """The decoder's constructor hands its placement parameters to the memory map it creates: MemoryMap(<kw>=<param>, ...) for every
+    (kw, parameter expression) of `expect`.  A parameter that is accepted and then not passed on is silently ignored."""
+    from .common import get_ctor, kwarg
+    ctor = get_ctor(idx, class_spec)
+    site = ctor.fi.site
+    mm = ctor.stored("self.bus.memory_map")
+    if mm is None or mm[0] != 'call' or not ir.show(mm[1]).endswith("MemoryMap"):
+        rep.unk(rule, site, "the constructor creates the decoder's memory map", f"self.bus.memory_map = {ir.show(mm)[:80] if mm else None}")
+        return
+    for kw, text in expect:
+        got = kwarg(mm, kw)
+        want = ctor.parse(text)
+        if kw not in ctor.fi.params and text == kw:
+            continue                                        # the parameter does not exist (any more): nothing to hand on
+        rep.form(got == want, rule, site, f"MemoryMap({kw}=...) receives the constructor's `{text}`",
+                 f"{kw}={ir.show(got) if got is not None else '<not passed: the map default is used>'}",
+                 wrong=(f"the constructor accepts `{kw}` and does not pass it on: the map is built with its default, so the parameter is ignored")
+                 if got is None else None)
+
+
 def late_sized_signals(rep, rule, idx, class_spec, collections):
     """A signal whose shape depends on how many items were add()-ed (`Signal(range(len(self._intrs)))`) is created where that number
     is final for the hardware being built -- in elaborate().  Created anywhere else (a lazily evaluated property, the constructor, a
